@@ -136,10 +136,12 @@ def real_run(kind, p, t0, n_queries, rng, hist, via_parse=False, use_copy=False,
     qsx, answers = [], []
     try:
         obj = make(kind, p, via_parse, use_copy)
+        real_run.warm_last = None
         if warmup is not None:
-            obj.initialize(warmup[0])
+            wa = obj.initialize(warmup[0])
             for tq in warmup[1]:
-                obj.next(tq)
+                wa = obj.next(tq)
+            real_run.warm_last = float(wa)
         a0 = float(obj.initialize(t0))
         answers.append(a0)
         t = t0
@@ -298,11 +300,15 @@ def branch_flags(kind, p, t0, queries, answers):
     return flags
 
 
-def model_request(kind, p, t0, queries, mode, warmup=None):
+def model_request(kind, p, t0, queries, mode, warmup=None, warm_last=None):
     enc = q if mode == "Q" else fbits
     a = {"mode": mode, "kind": kind, "t0": enc(t0), "queries": [enc(x) for x in queries]}
     if warmup is not None:  # an earlier run on the same object (what survives `initialize` is modelled as the code has it)
         a["warmup"] = {"t0": enc(warmup[0]), "queries": [enc(x) for x in warmup[1]]}
+        if kind == "geometric" and warm_last is not None and math.isfinite(warm_last) and warm_last > 0:
+            # the state the real object is in after the earlier run (its last answer and exponent): the float logarithm
+            # may round an exact lattice hit of the warm-up either way, which the recorded run must not inherit
+            a["warm_last"] = [q(warm_last), max(0, round(math.log(warm_last / p["scale"]) / math.log(p["factor"])))]
     for k, v in p.items():
         if k == "interrupts":
             a[k] = [enc(x) for x in v]
@@ -494,7 +500,7 @@ def run(ctx):
         mf = judge(case, answers)
         if mf:
             ctx.monitor_fail(mf["leg"], mf["case"], mf["observed"], mf["expected"], mf["what"], key=mf["key"])
-        iq = batch.add("c09.run", model_request(kind, p, t0, queries, "Q", case.get("warmup")))
+        iq = batch.add("c09.run", model_request(kind, p, t0, queries, "Q", case.get("warmup"), real_run.warm_last))
         jf = None if kind == "geometric" else batch.add("c09.run", model_request(kind, p, t0, queries, "F", case.get("warmup")))
         jg = None
         if kind == "geometric" and "warmup" not in case:  # (the code-model handler starts from a fresh object)
